@@ -122,6 +122,56 @@ func (g *EvGen) Deletion() *mocrelay.Event {
 	return e
 }
 
+// deletionChain scripts the interaction of several deletion requests of ONE author about ONE target: two requests
+// naming the target (by id, or by address when it has one), a third request that deletes one of the two, and the
+// target offered before, between or after them and once more at the end.
+func (g *EvGen) deletionChain() []*mocrelay.Event {
+	r := g.r
+	author := pick(r, authors)
+	x := g.Event()
+	x.Pubkey = author
+	if r.P(40) {
+		x.Kind = 30023
+		x.Tags = g.tags(30023)
+	} else if r.P(30) {
+		x.Kind = 1
+		x.Tags = g.tags(1)
+	}
+	ref := func() mocrelay.Tag {
+		if a := addrOf(x); a != "" && x.Kind >= 30000 && r.P(50) {
+			return mocrelay.Tag{"a", a}
+		}
+		return mocrelay.Tag{"e", x.ID}
+	}
+	del := func(t int64, tag mocrelay.Tag) *mocrelay.Event {
+		g.nextID++
+		e := &mocrelay.Event{ID: eventID(g.nextID), Pubkey: author, CreatedAt: t, Kind: 5, Content: "del", Sig: sig128(g.nextID), Tags: []mocrelay.Tag{tag}}
+		g.made = append(g.made, e)
+		return e
+	}
+	t1 := int64(r.Range(1, 11))
+	t2 := int64(r.Range(1, 11))
+	k1 := del(t1, ref())
+	k2 := del(t2, ref())
+	victim := k1
+	if r.P(50) {
+		victim = k2
+	}
+	k3 := del(int64(r.Range(1, 12)), mocrelay.Tag{"e", victim.ID})
+	seq := []*mocrelay.Event{k1, k2, k3}
+	if r.P(50) {
+		seq[0], seq[1] = seq[1], seq[0]
+	}
+	// the target arrives first, in the middle, or only at the end
+	switch r.Intn(3) {
+	case 0:
+		seq = append([]*mocrelay.Event{x}, seq...)
+	case 1:
+		seq = []*mocrelay.Event{seq[0], x, seq[1], seq[2]}
+	}
+	return append(seq, cloneEv(x))
+}
+
 // Filter over the same universe.  wide=false keeps it selective.
 func (g *EvGen) Filter() *mocrelay.ReqFilter {
 	r := g.r
